@@ -112,6 +112,7 @@ def _validate_blk(c):
               And(Val.is_S(x), Not(known), blocks1 == Store(blocks0, s, OI.Some(rr)), calls.inst_of(rr, BLOCK), c.post('name', rr) == s)))
     c.ensures('summary:only_the_created_block_gets_inputs', Or(c.post_whole('inputs') == c.pre_whole('inputs'),
               And(Val.is_S(x), Not(known), blocks1 != blocks0, c.post_whole('inputs') == Store(c.pre_whole('inputs'), rr, c.post('inputs', rr)))))
+    c.ensures('summary:a_const_or_a_block_of_this_circuit_given_as_object_is_returned_as_it_is', Implies(And(Not(Val.is_S(x)), Or(is_const, is_block)), r == x))
     if not c.verifying and SUMMARY_ONLY[0]:
         c.raises('KeyError', label='unknown_block_name'); c.raises('ValueError', label='block_of_another_circuit_or_undef_constant')
         return
@@ -271,7 +272,7 @@ def build(run):
                        'all circuits of 1..3 combinational blocks over 2 inputs whose inputs are given as object / name / _not_ shortcut / Const / plain '
                        'constant, single or group: after finalize() the three connection relations coincide, shortcuts are shared, get_conf and '
                        'input_signature agree; plus the error families (unknown name, foreign block, wrong kind, duplicate, connect twice, add after finalize)')
-    run.unclaim("the converse direction 'A is an input connection of B only if A is among B's resolved inputs' (the list of collected inputs contains "
-                "nothing but resolved inputs of the block) and 'no block is created in the second pass' (needs the string clauses of _validate_blk "
-                "inside the loops): covered by the bounded search only; CBlock.connect/check_signature/get_conf: bounded only")
+    run.unclaim("the converse 'an input connection is one of the block's inputs' for inverter blocks created by the user (they are processed in both "
+                "passes; the second pass re-validates already resolved inputs) and 'no block is created in the second pass' (needs the string "
+                "clauses of _validate_blk inside the loops): covered by the bounded search only; CBlock.connect/check_signature/get_conf: bounded only")
     run.assume('block objects are heap objects; Const objects are not blocks')
